@@ -152,6 +152,28 @@ class record_dynamic:
                 tuple((k, id(v)) for k, v in r._level_to_section.items()), id(r.current_node),
                 getattr(r, "_generated_labels", 0), len(r.md_env.get("duplicate_refs", []) or []))
 
+    def _with_role_hook(self, call):
+        """run `call` with docutils' roles.role wrapped so that the (nodes, messages) a role function returns
+        are recorded in self.returned"""
+        from docutils.parsers.rst import roles as RR
+        orig_role, me = RR.role, self
+
+        def role(*a, **k):
+            fn, msgs = orig_role(*a, **k)
+            if not fn:
+                return fn, msgs
+
+            def fn2(*a2, **k2):
+                res = fn(*a2, **k2)
+                me.returned.append(list(res[0]) + list(res[1]))
+                return res
+            return fn2, msgs
+        RR.role = role
+        try:
+            return call()
+        finally:
+            RR.role = orig_role
+
     @staticmethod
     def _wtext(r):
         if r.sphinx_env is not None and SphinxDriver._inst is not None:
@@ -174,6 +196,8 @@ class record_dynamic:
         from myst_parser.mdit_to_docutils.base import DocutilsRenderer as R
         self.R = R
         self.orig = {n: R.__dict__[n] for n in self.METHODS}
+        self.orig["run_directive"] = orig_run = R.__dict__["run_directive"]
+        self.returned, self.violations = [], []
         me, orig = self, self.orig
 
         def by_children(meth, keyf):
@@ -182,19 +206,45 @@ class record_dynamic:
                 cur = r.current_node
                 n0 = len(cur.children)
                 key = keyf(token, *a, **k)
+                depth = len(me.returned)
                 try:
-                    res = orig[meth](r, token, *a, **k)
+                    if meth == "render_myst_role":
+                        res = me._with_role_hook(lambda: orig[meth](r, token, *a, **k))
+                    else:
+                        res = orig[meth](r, token, *a, **k)
                 except BaseException:
                     if key is not None:
                         me._note(r, key, [], before, wb, False)
                     raise
+                new = list(cur.children[n0:])
+                if meth == "render_myst_role" and len(me.returned) > depth:
+                    # O_role: the current node receives exactly what the role function returned (nodes + messages)
+                    ret = me.returned[depth]
+                    del me.returned[depth:]
+                    if [id(x) for x in new] != [id(x) for x in ret]:
+                        me.violations.append(("role", key))
+                if meth == "render_directive" and len(me.returned) > depth:
+                    # O_directive: what render_directive gives to the current node is what run_directive returned,
+                    # once, at the end (before it: only the warnings run_directive appended itself)
+                    ret = me.returned[depth]
+                    del me.returned[depth:]
+                    head = new[:len(new) - len(ret)] if len(ret) <= len(new) else None
+                    if head is None or [id(x) for x in new[len(head):]] != [id(x) for x in ret] or \
+                            any(x.tagname != "system_message" for x in head):
+                        me.violations.append(("directive", key))
                 if key is not None:
-                    me._note(r, key, list(cur.children[n0:]), before, wb, r.current_node is cur)
+                    me._note(r, key, new, before, wb, r.current_node is cur)
                 return res
             return f
 
+        def run_directive(r, *a, **k):
+            res = orig_run(r, *a, **k)
+            me.returned.append(list(res))
+            return res
+
         # render_directive = run_directive + `self.current_node += nodes`; run_directive also appends its own
         # warnings (unknown options ...) to the current node, so the run's result is read off the current node
+        R.run_directive = run_directive
         R.render_directive = by_children(
             "render_directive",
             lambda t, name, arguments, additional_options=None, prepended_lines=0:
